@@ -211,17 +211,19 @@ def run(chk, scratch):
                     (["A", "B"], ("one", "skew"), 1, "yaml"), (["B", "A"], ("skew", "one"), 1, "yaml"), (["C", "A", "B"], ("one", "skew", "two"), 4, "list"),
                     (["A", "B"], "skew", 4, "yaml"), (["A", "B"], "two", 1, "yaml-unl:B"), (["B", "A", "C"], "two", 2, "yaml-unl:B,C"),
                     (["C", "A"], ("one", "two"), 1, "yaml-unl:C"), (["B", "B "], "one", 1, "yaml"), (["B ", "A", "B"], "two", 3, "yaml"), (["SKIP", "A", "B"], "one", 1, "yaml-ill:SKIP,A"), (["A", "SKIP", "B", "C"], "one", 2, "yaml-ill:A,C"),
-                    (["A", "A2", "B"], "one", 1, "list-rgtable"), (["B", "A"], "one", 3, "yaml-rgtable"), (["A", "B"], "one", 1, "yaml-ill:A,B"), (["B", "A"], "one", 1, "yaml-ill:A,B"), (["A", "C"], "one", 1, "yaml-pacbio"), (["B", "C", "A"], "one", 3, "list-pacbio")]
+                    (["A", "A2", "B"], "one", 1, "list-rgtable"), (["B", "A"], "one", 3, "yaml-rgtable"), (["A", "B"], "one", 1, "yaml-ill:A,B"), (["B", "A"], "one", 1, "yaml-ill:A,B"), (["A", "C"], "one", 1, "yaml-pacbio"), (["B", "C", "A"], "one", 3, "list-pacbio"), (["A", "A2", "B"], "one", 1, "yaml-hm"), (["B", "A"], "two", 4, "list-hm"), (["A", "A2"], "two", 2, "yaml"), (["A2", "A"], "two", 1, "list")]
         else:
             seqs = [(["A", "B", "C"], "one", 1, "yaml"), (["B", "A"], "one", 4, "list"), (["A", "B"], "two", 1, "yaml"),
                     (["A", "A2"], "one", 1, "yaml"), (["A", "B"], ("one", "skew"), 1, "yaml"), (["B", "A"], ("skew", "one"), 2, "list"),
                     (["A", "B"], "two", 2, "yaml-unl:B"), (["B", "B "], "one", 2, "yaml"), (["SKIP", "A", "B"], "one", 1, "yaml-ill:SKIP,A"),
-                    (["A", "A2", "B"], "one", 1, "list-rgtable"), (["A", "B"], "one", 1, "yaml-ill:A,B"), (["C", "A"], "one", 2, "list"), (["A", "C"], "one", 1, "yaml-pacbio")]
+                    (["A", "A2", "B"], "one", 1, "list-rgtable"), (["A", "B"], "one", 1, "yaml-ill:A,B"), (["C", "A"], "one", 2, "list"), (["A", "C"], "one", 1, "yaml-pacbio"), (["A", "A2", "B"], "one", 1, "yaml-hm"), (["A", "A2"], "two", 2, "yaml")]
         # stand-alone runs (per experiment x files x threads x mode)
         # a sequence whose experiments differ in the number of files runs (stand-alone and joint) with an explicit --read_group file_name,
         # which a mixed sequence would otherwise switch on implicitly for all experiments
         def base_of(mode):
             # '...-pacbio': the same with -d pacbio_ccs (its defaults do not require tails for mono-intronic novel transcripts unless the data is tail-rich)
+            if mode.endswith("-hm"):
+                return base + ["--high_memory"]       # everything of a chromosome kept in memory: nothing may stay there for the next experiment
             return [("pacbio_ccs" if x == "nanopore" else x) for x in base] if mode.endswith("-pacbio") else base
 
         def nf_of(nf, pos):
